@@ -1000,7 +1000,12 @@ int vorbis_synthesis_lapout(vorbis_dsp_state *v,float ***pcm){
   }
 
   /* solidify buffer into contiguous space */
-  if((v->lW^v->W)==1){
+  if(v->pcm_current>=n1){
+    /* returned data already ends at the center of the current block;
+       this is the state after a (re)start when only the priming block
+       has been decoded.  There is nothing to move, and lW does not
+       describe a real previous block. */
+  }else if((v->lW^v->W)==1){
     /* long/short or short/long */
     for(j=0;j<vi->channels;j++){
       float *s=v->pcm[j];
